@@ -437,7 +437,8 @@ static ssize_t _GD_GetNRec(struct gd_siedata *f, size_t size)
   gd_stat64_t statbuf;
   dtrace("%p, %" PRIuSIZE, f, size);
 
-  if (gd_fstat64(fileno(f->fp), &statbuf)) {
+  /* records written by the previous call may still be in the stdio buffer */
+  if (fflush(f->fp) || gd_fstat64(fileno(f->fp), &statbuf)) {
     dreturn("%i", -1);
     return -1;
   }
